@@ -44,7 +44,7 @@ def spec_events(case, maps):
         elif k == "end":
             out.append(("end",))
         elif k == "env":
-            out.append(("env", tuple(sorted((p[0], nsast.spec_value(p[1])) for p in nsast.seq(e[1])))))
+            out.append(("env", tuple(sorted(((p[0], nsast.spec_value(p[1])) for p in nsast.seq(e[1])), key=str))))
     return out
 
 
@@ -69,7 +69,7 @@ def impl_events(events, maps):
         elif k == "end":
             out.append(("end",))
         elif k == "env":
-            out.append(("env", tuple(sorted((decl.get(p[0], ("?", p[0])), nsast.impl_value(p[1])) for p in e["vars"]))))
+            out.append(("env", tuple(sorted(((decl.get(p[0], ("?", p[0])), nsast.impl_value(p[1])) for p in e["vars"]), key=str))))
     return out
 
 
